@@ -5,6 +5,7 @@ import (
 	"fmt"
 	"strings"
 	"sync"
+	"sync/atomic"
 	"testing"
 	"time"
 
@@ -121,5 +122,119 @@ func TestVP_C20_Forward(t *testing.T) {
 				t.Fatalf("VPFAIL C20 configured key %q refused with code %d %q", key, rep.ErrCode, rep.Msg)
 			}
 		}
+	})
+}
+
+// TestVP_C20_Concurrent: many opens for different keys in flight at once on one handler
+// (every open runs asynchronously in the handler). Oracle over the batch: each listener
+// accepted exactly as many connections as there were requests for its key, unknown keys
+// reached nobody and were refused with not-found.
+func TestVP_C20_Concurrent(t *testing.T) {
+	st := vp.NewStats("C20", "concurrent", "forward.Handler with 2-5 endpoints on distinct loopback listeners; per case 5-30 rounds of 4-24 opens released together by a spin barrier, keys drawn from the configured ones and unknown ones; per round every listener's accept count equals the number of requests for its key; non-trivial = a round mixes at least two configured keys")
+	defer st.Flush()
+	vpC20Once.Do(func() {
+		for i := 0; i < 6; i++ {
+			l, err := harn.Listen(fmt.Sprint(i), "127.0.0.1:0", false)
+			if err != nil {
+				t.Fatalf("listen: %v", err)
+			}
+			vpC20Lis = append(vpC20Lis, l)
+		}
+	})
+	var sid atomic.Uint64
+	sid.Store(1 << 32)
+	_, remotePub, _ := crypto.GenerateEphemeralKeypair()
+	rapid.Check(t, func(t *rapid.T) {
+		ne := rapid.IntRange(2, 5).Draw(t, "endpoints")
+		cfg := forward.DefaultHandlerConfig()
+		cfg.ConnectTimeout = 2 * time.Second
+		cfg.MaxConnections = 0
+		keys := []string{}
+		for j := 0; j < ne; j++ {
+			k := fmt.Sprintf("key%d", j)
+			keys = append(keys, k)
+			cfg.Endpoints = append(cfg.Endpoints, forward.Endpoint{Key: k, Target: fmt.Sprintf("127.0.0.1:%d", vpC20Lis[j].Port)})
+		}
+		w := harn.NewWriter()
+		h := forward.NewHandler(cfg, identity.AgentID{9}, w)
+		h.Start()
+		defer h.Stop()
+		rounds := rapid.IntRange(5, 30).Draw(t, "rounds")
+		mixed := false
+		for r := 0; r < rounds; r++ {
+			n := rapid.IntRange(4, 24).Draw(t, fmt.Sprintf("opens%d", r))
+			req := make([]int, n) // index into keys, or -1 = unknown key
+			want := make([]int, len(vpC20Lis))
+			used := map[int]bool{}
+			for i := range req {
+				req[i] = rapid.IntRange(-1, ne-1).Draw(t, fmt.Sprintf("k%d_%d", r, i))
+				if req[i] >= 0 {
+					want[req[i]]++
+					used[req[i]] = true
+				}
+			}
+			if len(used) >= 2 {
+				mixed = true
+			}
+			before := make([]int, len(vpC20Lis))
+			for j, l := range vpC20Lis {
+				before[j] = l.Count()
+			}
+			ids := make([]uint64, n)
+			var ready atomic.Int64
+			var wg sync.WaitGroup
+			for i := 0; i < n; i++ {
+				ids[i] = sid.Add(2)
+				wg.Add(1)
+				go func(i int) {
+					defer wg.Done()
+					key := "nokey"
+					if req[i] >= 0 {
+						key = keys[req[i]]
+					}
+					ready.Add(1)
+					for ready.Load() < int64(n) {
+					}
+					h.HandleStreamOpen(context.Background(), ids[i], ids[i], identity.AgentID{7}, key, remotePub)
+				}(i)
+			}
+			wg.Wait()
+			for i := 0; i < n; i++ {
+				rep, ok := w.WaitReply(ids[i], 1, 10*time.Second)
+				if !ok {
+					t.Fatalf("VPFAIL C20 no reply for a concurrent open (round %d)", r+1)
+				}
+				if req[i] < 0 && (rep.Ack || rep.ErrCode != protocol.ErrForwardNotFound) {
+					t.Fatalf("VPFAIL C20 unknown key answered with ack=%v code=%d instead of not-found while other opens were in flight", rep.Ack, rep.ErrCode)
+				}
+				if req[i] >= 0 && !rep.Ack {
+					t.Fatalf("VPFAIL C20 configured key %q refused with code %d %q while other opens were in flight", keys[req[i]], rep.ErrCode, rep.Msg)
+				}
+			}
+			// accepts trail the acknowledgements by a moment
+			for spin := 0; spin < 4000; spin++ {
+				done := true
+				for j, l := range vpC20Lis {
+					if l.Count()-before[j] < want[j] {
+						done = false
+					}
+				}
+				if done {
+					break
+				}
+				time.Sleep(500 * time.Microsecond)
+			}
+			for j, l := range vpC20Lis {
+				if got := l.Count() - before[j]; got != want[j] {
+					t.Fatalf("VPFAIL C20 round %d: %d concurrent opens asked for the target of endpoint %d but its listener accepted %d connections (requests per endpoint %v): an open was connected to another endpoint's target", r+1, want[j], j, got, want[:ne])
+				}
+			}
+			for i := 0; i < n; i++ {
+				if req[i] >= 0 {
+					h.HandleStreamClose(identity.AgentID{7}, ids[i])
+				}
+			}
+		}
+		st.Case(fmt.Sprintf("endpoints=%d rounds=%d", ne, rounds), mixed, fmt.Sprintf("endpoints-%d", ne))
 	})
 }
